@@ -3,7 +3,7 @@
    Model: Tcp/Sender.v (TCPPacketGenerator.put / timeout_callback / run + CongestionControl).
    [fx] ranges over the repair flags; every theorem that needs the deflation repair says so. *)
 From Coq Require Import ZArith QArith Qabs Qminmax List.
-From ONL Require Import Tcp.Sender Tcp.SenderProofs Gen.Extracted_cc Tcp.CcBridge Tcp.Cubic Tcp.CubicProofs Tcp.CubicBridge.
+From ONL Require Import Tcp.Sender Tcp.SenderProofs Gen.Extracted_cc Tcp.CcBridge Tcp.Cubic Tcp.CubicProofs Tcp.CubicBridge Tcp.AppSender Tcp.AppSenderProofs.
 Import ListNotations.
 Open Scope Z_scope.
 
@@ -352,3 +352,61 @@ Theorem C17_gen_cubic_ack_received : forall c cs cw ss ccnt cn rtt now,
   end.
 Proof. exact bridge_cubic_ack_received. Qed.
 Print Assumptions C17_gen_cubic_ack_received.
+
+(* --- the sender with the Flow's APPLICATION PROCESS (Tcp/AppSender.v): run() fetches data from
+   flow.arrival_dist / size_dist / size, sleeping on env.timeout for the next write; start_time,
+   finish_time.  [astep] = [step] for ACKs, expiries and store callbacks; the two kinds of resumption of
+   run() (AWake: Initialize / granted StoreGet; AAppWake: the Timeout it sleeps on) run the fetching
+   loop.  The send guard is evaluated on the window in force at that resumption. --- *)
+Theorem C17_app_send_guard : forall fx fuel ac s a e s' a' outs,
+  0 < mss (ac_cfg ac) -> (exists now, e = AWake now \/ e = AAppWake now) ->
+  astep fx fuel ac s a e = AOk s' a' outs ->
+  arun_spec (ac_cfg ac) (set_store s (tokens s) (pend s) false false) s' [] outs.
+Proof. exact app_send_guard. Qed.
+Print Assumptions C17_app_send_guard.
+
+Theorem C17_app_window_respected : forall fx fuel ac s a e s' a' outs,
+  0 < mss (ac_cfg ac) -> (exists now, e = AWake now \/ e = AAppWake now) ->
+  astep fx fuel ac s a e = AOk s' a' outs -> next_seq s < next_seq s' ->
+  (zq (next_seq s' - last_ack s) <= cwnd s)%Q /\ last_ack s' = last_ack s /\ cwnd s' = cwnd s.
+Proof. exact app_window_respected. Qed.
+Print Assumptions C17_app_window_respected.
+
+(* never beyond the buffered data: writes are non-negative, send_buffer only grows, every segment
+   emitted ends inside it *)
+Theorem C17_app_buffer_respected : forall fx fuel ac s a e s' a' outs,
+  0 < mss (ac_cfg ac) -> (exists now, e = AWake now \/ e = AAppWake now) ->
+  fetch_ok ac s -> (forall d, ap_sleep a = Some (true, d) -> send_buffer s <= next_seq s) ->
+  astep fx fuel ac s a e = AOk s' a' outs ->
+  send_buffer s <= send_buffer s' /\ fetch_ok ac s' /\
+  (forall i z, In (Tx i z) outs -> i + mss (ac_cfg ac) <= send_buffer s').
+Proof. exact app_buffer_respected. Qed.
+Print Assumptions C17_app_buffer_respected.
+
+Theorem C17_app_other_events : forall fx fuel ac s a e,
+  e <> EWake ->
+  astep fx fuel ac s a (AEv e) = match step fx (ac_cfg ac) s e with Ok s' o => AOk s' a o | Raise x => ARaise x end.
+Proof. exact app_other_events. Qed.
+Print Assumptions C17_app_other_events.
+
+(* what the code does with less than one MSS of buffered data beyond next_seq (a trailing partial
+   segment of a flow whose size is not a multiple of the MSS; a short application write): nothing is
+   sent, run() waits on its store, does not finish -- and does not fetch more data either *)
+Theorem C17_app_partial_tail_waits : forall ac fuel now s a acc,
+  match ac_finish ac with Some ft => (now < ft)%Q | None => True end ->
+  fsize (ac_cfg ac) = 0 \/ next_seq s < fsize (ac_cfg ac) ->
+  next_seq s < send_buffer s < next_seq s + mss (ac_cfg ac) ->
+  arun (S (S fuel)) ac now MOuter s a acc =
+  AOk (match tokens s with S tk => set_store s tk (pend s) false true | O => set_store s O (pend s) true false end) a acc.
+Proof. exact app_partial_tail_waits. Qed.
+Print Assumptions C17_app_partial_tail_waits.
+
+Theorem C17_app_partial_buffer_is_permanent : forall fx fuel ac s a now,
+  match ac_finish ac with Some ft => (now < ft)%Q | None => True end ->
+  fsize (ac_cfg ac) = 0 \/ next_seq s < fsize (ac_cfg ac) ->
+  next_seq s < send_buffer s < next_seq s + mss (ac_cfg ac) ->
+  wake s = true -> finished s = false -> ap_sleep a = None -> ap_started a = true ->
+  exists s', astep fx (S (S fuel)) ac s a (AWake now) = AOk s' a [] /\
+             next_seq s' = next_seq s /\ send_buffer s' = send_buffer s /\ finished s' = false.
+Proof. exact app_partial_buffer_is_permanent. Qed.
+Print Assumptions C17_app_partial_buffer_is_permanent.
